@@ -35,7 +35,10 @@ NodeOfRow(r, inLayer) ==
                   \/ (r.t = "file" /\ r.sz # B * Len(c))
   IN IF bad THEN [NoneN EXCEPT !.t = "bad", !.tg = ToString(r)]
      ELSE [t |-> r.t, m |-> IF Has(r, "m") THEN r.m ELSE 0, c |-> c,
-           tg |-> IF Has(r, "tg") THEN r.tg ELSE "", x |-> XSet(r),
+           tg |-> IF Has(r, "tg") THEN r.tg ELSE "",
+           \* a symbolic link whose target is not valid UTF-8 (logged "x:<hex>", flag tgx) carries a mark in x, a field
+           \* that is otherwise unused (and never compared) for symbolic links
+           x |-> IF r.t = "sym" THEN (IF Has(r, "tgx") THEN {<<"non-utf8-target", "">>} ELSE {}) ELSE XSet(r),
            o |-> (inLayer /\ Has(r, "opq") /\ r.opq # ""), id |-> r.p]
 RowsOK(rows) == /\ \A i \in DOMAIN rows : rows[i].p \in Paths
                 /\ Cardinality({rows[i].p : i \in DOMAIN rows}) = Len(rows)
